@@ -147,11 +147,61 @@ def model_lines(c):
 def cases_chain(ctx, rng):
     for _ in range(500 if ctx.tier == 'quick' else 8000):
         yield chain_case(rng)
+    for _ in range(60 if ctx.tier == 'quick' else 600):
+        k = rng.randint(3, 6)
+        days = sorted(rng.sample(range(0, 75), k))
+        yield {'k': 'lab', 'sub': 'grown', 'variant': rng.choice(['date', 'date', 'ih']), 'days': days, 'split': rng.randint(1, k - 1),
+               'r': rng.randint(0, 10 ** 6), 'n': k}
     for _ in range(300 if ctx.tier == 'quick' else 5000):
         spec = gen.rand_frame_spec(rng, 4, 5, dtypes=gen.DTYPES_BASIC, index_kinds=('auto', 'int', 'str'), column_kinds=('auto', 'int', 'str'), min_rows=1, min_cols=1, run_bias=0.6)
         n, m = spec['rows'], len(spec['cols'])
         yield {'k': 'lab', 'sub': 'bloc', 'spec': spec, 'bits': [[rng.randint(0, 1) for _ in range(m)] for _ in range(n)],
                'perm': rng.random() < 0.3, 'r': rng.randint(0, 10 ** 6), 'n': n * m}
+
+
+def eval_grown(ctx, c):
+    """a label selection straight after a grow-only axis grew (nothing read in between): the selection answers for the labels
+    the axis holds NOW - period keys and partial hierarchical labels are matched against arrays that growth leaves un-cached"""
+    import static_frame as sf
+    fails = []
+    r = c['r']
+    ctx.count('lab_grown')
+    days0, days1 = c['days'][: c['split']], c['days'][c['split']:]
+    mk = lambda d: np.datetime64('2020-01-01') + np.timedelta64(int(d), 'D')
+    base = np.arange(2 * len(days0)).reshape(2, len(days0))
+    if c['variant'] == 'date':
+        f = sf.FrameGO(base, columns=sf.IndexDateGO([mk(d) for d in days0]), index=('x', 'y'))
+        for k, d in enumerate(days1):
+            f[mk(d)] = (100 + k, 200 + k)
+        alld = [mk(d) for d in c['days']]
+        month = str(alld[r % len(alld)])[:7]
+        exp = [str(d) for d in alld if str(d)[:7] == month]
+        for desc, fn in ((f'frame_go[{month!r}]', lambda: f[month]), (f'frame_go.loc["y", {month!r}]', lambda: f.loc['y', month]),
+                         ('frame_go[np.datetime64(month)]', lambda: f[np.datetime64(month, 'M')])):
+            try:
+                res = fn()
+                got = [str(x) for x in (res.columns if isinstance(res, sf.Frame) else res.index)]
+            except Exception as ex:
+                fails.append(Failure('oracle', f'grown axis: {desc} raised {type(ex).__name__}: {ex}', c))
+                break
+            if got != exp:
+                fails.append(Failure('oracle', f'grown axis: {desc} straight after adding columns {[str(mk(d)) for d in days1]} selected {got}, the axis holds {exp} in that month', c))
+                break
+    else:
+        outer0 = [('a', 1), ('a', 2), ('b', 1)]
+        f = sf.FrameGO(np.arange(6).reshape(2, 3), columns=sf.IndexHierarchyGO.from_labels(outer0), index=('x', 'y'))
+        added = [('b', 2 + k) for k in range(len(days1))]
+        for k, lab in enumerate(added):
+            f[lab] = (100 + k, 200 + k)
+        exp = [l for l in outer0 + added if l[0] == 'b']
+        try:
+            res = f.loc[:, sf.HLoc['b']]
+            got = [tuple(x) for x in res.columns] if isinstance(res, sf.Frame) else None
+        except Exception as ex:
+            return [Failure('oracle', f'grown axis: frame_go.loc[:, HLoc["b"]] raised {type(ex).__name__}: {ex}', c)]
+        if got != exp:
+            fails.append(Failure('oracle', f'grown axis: HLoc["b"] straight after adding {added} selected {got}, the axis holds {exp} under "b"', c))
+    return fails
 
 
 def eval_bloc(ctx, c):
@@ -270,6 +320,8 @@ def evaluate(ctx, c, outs):
             return eval_chain(ctx, c, outs)
         if c['sub'] == 'bloc':
             return eval_bloc(ctx, c)
+        if c['sub'] == 'grown':
+            return eval_grown(ctx, c)
         return eval_lab(ctx, c)
     return eval_frame(ctx, c, outs[:2]) + fm_eval(ctx, c, outs[2:])
 
